@@ -465,6 +465,26 @@ fn walk_chunk_inner(w: &mut W, ctype: u16, frame: usize, m: &mut Map) -> Option<
             if fl & 2 != 0 {
                 w.blob(4, "color", Kind::Value)?;
             }
+            if fl & 4 != 0 {
+                // property maps (Aseprite 1.3): the head of the recursive structure is mapped so
+                // that its lengths, counts and type codes are corrupted like any other field
+                w.u32("props-size", Kind::Length)?;
+                let maps = w.u32("props-maps", Kind::Count)?;
+                if maps > 0 {
+                    w.u32("props-map-key", Kind::Index)?;
+                    let n = w.u32("props-count", Kind::Count)?;
+                    if n > 0 {
+                        w.string("prop-name-len")?;
+                        let ty = w.u16("prop-type", Kind::Enum)?;
+                        if ty == 0x11 {
+                            w.u32("prop-vec-count", Kind::Count)?;
+                            w.u16("prop-vec-type", Kind::Enum)?;
+                        } else if ty == 0x12 {
+                            w.u32("prop-map-count", Kind::Count)?;
+                        }
+                    }
+                }
+            }
         }
         0x2022 => {
             let n = w.u32("keys", Kind::Count)?;
